@@ -262,6 +262,7 @@ func runHistory(c *core.Ctx, kind, side string, n *core.N, path []int, script []
 	}
 	twin0, wf0 := read(twin)
 	txt0 := text(twin)
+	ia0 := indexAnswers(twin, nil) // the tip index (a map owned by the Tree struct) is part of the twin
 	var wfs []string
 	if wf0 != "" {
 		wfs = append(wfs, "start: "+wf0)
@@ -295,6 +296,7 @@ func runHistory(c *core.Ctx, kind, side string, n *core.N, path []int, script []
 			prev, _ = read(edited)
 			b, wfb := read(twin)
 			twinBad = wfb != "" // broken by its own earlier edits: not this step's business
+			ia0 = indexAnswers(twin, nil)
 			twins = append(twins, b)
 			txts = append(txts, text(twin))
 		}
@@ -339,6 +341,9 @@ func runHistory(c *core.Ctx, kind, side string, n *core.N, path []int, script []
 		txts = append(txts, text(twin))
 		if wf != "" && !twinBad {
 			wfs = append(wfs, fmt.Sprintf("step %d: %s", i+1, wf))
+		}
+		if ia := indexAnswers(twin, nil); ia != ia0 && !twinBad {
+			wfs = append(wfs, fmt.Sprintf("step %d: the tip index of the tree that was not edited changed from %s to %s", i+1, ia0, ia))
 		}
 	}
 	var tw strings.Builder
